@@ -232,6 +232,9 @@ def step (q : Quirks) (toks : List String) (impl : String) : Res :=
     let m := render out
     { model := m, implView := viewFor m impl, monitor := monitors impl,
       tags := ["val", "val-" ++ netS, "val-" ++ (shape.splitOn ":").headD "", "val=" ++ classTag impl], nontrivial := key.length > 1 }
+  | "pongseq" =>
+    -- a PONG announcing a newer record, then whatever NODES answer to our request for it: our PING comes back fine, no panic
+    { model := "ok", monitor := monitors impl, tags := ["pongseq", kv toks "kind", "pongseq=" ++ classTag impl], nontrivial := true }
   | "utpbody" =>
     -- a really served uTP stream: the honest and the over-framed body give a value, the raw body where a version-1 frame is
     -- expected fails to decode after a complete read - an error, never a panic
